@@ -1,4 +1,5 @@
-import TF.Proofs.LatticeFinal
+import TF.Proofs.LatticeCt
+import TF.Proofs.LatticeKem
 /-!
 # C18 — lattice ring product is negacyclic convolution; KEM correct, rejects tampering
 
@@ -48,6 +49,52 @@ theorem ring_mul_is_negacyclic (a b : Ring) (ha : a.size = 64) (hb : b.size = 64
   ringMul_eq_negacyclic a b ha hb
 example : (Array.replicate 64 1 : Ring).size = 64 := by decide
 
+/-- The inverse coset transform undoes the forward one: `intt64 (ntt64 x) = x` (for any 64 naturals: `x` reduced
+    modulo `P`; on canonical values the identity). -/
+theorem coset_intt_ntt (x : Ring) (hx : x.size = 64) : intt64 (ntt64 x) = x.map (· % P) :=
+  intt64_ntt64 x hx
+example : (Array.replicate 64 7 : Ring).size = 64 := by decide
+
+/-- **The module-multiplication strategies agree** for every shape `H × INNER × W`:
+    `multiply = fast_multiply`, where `fast_multiply` is by definition `intt (multiply_hadamard (ntt lhs) (ntt rhs))`. -/
+theorem module_strategies_agree (H I W : Nat) (l r : Module) (hl : Shaped (H * I) l) (hr : Shaped (I * W) r) :
+    modMultiply H I W l r = modFastMultiply H I W l r ∧
+    modFastMultiply H I W l r = modIntt (modMultiplyHadamard H I W (modNtt l) (modNtt r)) :=
+  ⟨modMultiply_eq_fast H I W l r hl hr, rfl⟩
+example : Shaped (1 * 1) #[Array.replicate 64 3] := ⟨rfl, fun k hk => by
+  have : k = 0 := by omega
+  subst this; decide⟩
+
+/-- `multiply` is the matrix product over `F_p[X]/(X^64+1)` with the schoolbook negacyclic product of the entries. -/
+theorem module_multiply_is_schoolbook (H I W : Nat) (l r : Module) (hl : Shaped (H * I) l) (hr : Shaped (I * W) r) :
+    modMultiply H I W l r = modMulWith negacyclic H I W l r := by
+  apply Array.ext (by simp [modMultiply, modMulWith])
+  intro idx h1 h2
+  have hidx : idx < H * W := by simpa [modMultiply, modMulWith] using h1
+  simp only [modMultiply, modMulWith, Array.getElem_ofFn]
+  apply foldl_congr_mem
+  intro acc i hi
+  obtain ⟨b1, b2⟩ := index_bounds H I W idx i hidx (List.mem_range.1 hi)
+  rw [ringMul_eq_negacyclic _ _ (hl.2 _ b1) (hr.2 _ b2)]
+example : (2 : Nat) * 3 = 6 := rfl
+
+/-- **Message embedding survives bounded noise**: for every 32-byte message and every noise vector whose 64
+    coefficients are integers in `(-2^14, 2^14)`, added in the field (modulo `P`, wrap-around included),
+    `extract_msg (embed_msg m + e) = m`. -/
+theorem embed_extract (msg : List Nat) (hlen : msg.length = 32) (hb : ∀ b ∈ msg, b < 256)
+    (noise : Nat → Int) (hnoise : ∀ k, k < 64 → -16384 < noise k ∧ noise k < 16384)
+    (r : Ring) (hr : ∀ k, k < 64 → r.getD k 0 = addNoise ((embedMsg msg).getD k 0) (noise k)) :
+    extractMsg r = msg :=
+  extract_embed_noise msg hlen hb noise hnoise r hr
+example : addNoise 0 (-1) = P - 1 ∧ addNoise 32768 16383 = 49151 := by decide
+
+/-- `[BFieldElement; 320] ↔ Ciphertext` are mutually inverse (on well-shaped ciphertexts). -/
+theorem ciphertext_array_roundtrip :
+    (∀ v : Array Nat, v.size = 320 → ciphertextToArray (ciphertextOfArray v) = v) ∧
+    (∀ c : Ciphertext, Shaped 4 c.bg → Shaped 1 c.bgaM → ciphertextOfArray (ciphertextToArray c) = c) :=
+  ⟨ciphertext_array_roundtrip_1, ciphertext_array_roundtrip_2⟩
+example : (Array.replicate 320 5 : Array Nat).size = 320 := by simp
+
 /-- **`dec` accepts exactly re-encryptions**: for every pair of hash functions, every secret key and every
     ciphertext, `dec sk c = some k` iff `c` is the ciphertext generated from the public key re-derived from `sk` and the
     payload `dec` extracted from `c`, and `k` is the hash of that payload. -/
@@ -67,14 +114,32 @@ theorem dec_rejects_everything_else (O : Oracles) (sk : SecretKey) (c : Cipherte
 example : (⟨#[], #[]⟩ : Ciphertext) ≠ ⟨#[#[1]], #[]⟩ := by decide
 
 /-- **Honest round trip, deterministic core**: for keys from `keygen` and a ciphertext from `enc`, decapsulation
-    returns the encapsulated key whenever message extraction recovers the payload (which it does when the noise term
-    `b·c - d·a` stays below the lane threshold — see `embed_extract`; the probability of that event is not a statement
-    about a deterministic model and is not proved). -/
+    returns the encapsulated key whenever message extraction recovers the payload (see `kem_correct_under_noise_bound`
+    for the sufficient condition on the noise). -/
 theorem kem_roundtrip_of_extraction (O : Oracles) (rk r : List Nat)
     (hext : decPayload O (keygen O rk).1 (enc O (keygen O rk).2 r).2 = O.xof r 32) :
     dec O (keygen O rk).1 (enc O (keygen O rk).2 r).2 = some (enc O (keygen O rk).2 r).1 := by
   rw [dec_eq_some_iff, hext]
   exact ⟨rfl, rfl⟩
 example : ∃ O : Oracles, O.xof [] 32 = List.replicate 32 0 := ⟨{ xof := fun _ n => List.replicate n 0, hash := fun _ => [1] }, rfl⟩
+
+/-- **KEM correctness under the noise bound** (every pair of hash functions, every key seed, every encapsulation
+    seed): if every coefficient of the noise ring element `Σ_i b_i·c_i − Σ_i d_i·a_i` (negacyclic products of the short
+    secret vectors of key generation `(a, c)` and of encapsulation `(b, d)`) is, as a signed field element, in
+    `(-2^14, 2^14)`, then decapsulating the honest ciphertext with the matching secret key returns the encapsulated
+    shared key.  (The element `dec` extracts from is exactly `embed_msg payload + noise`: the public-matrix terms
+    cancel coefficient-wise in the NTT domain, `intt ∘ ntt = id`, and the transform is additive and multiplicative for
+    the negacyclic product.)  The probability that the bound holds is not a statement about a deterministic model. -/
+theorem kem_correct_under_noise_bound (O : Oracles) (rk r : List Nat)
+    (hlen : (O.xof r 32).length = 32) (hb : ∀ x ∈ O.xof r 32, x < 256)
+    (hE : ∀ k, k < 64 →
+      ((modSub (modMulWith negacyclic 1 4 1 (deriveSecretVectors O (O.xof r 32)).1 (deriveSecretVectors O (keygen O rk).1.key).2)
+        (modMulWith negacyclic 1 4 1 (deriveSecretVectors O (O.xof r 32)).2 (deriveSecretVectors O (keygen O rk).1.key).1)).getD 0 ringZero).getD k 0 < 16384 ∨
+      P - 16384 < ((modSub (modMulWith negacyclic 1 4 1 (deriveSecretVectors O (O.xof r 32)).1 (deriveSecretVectors O (keygen O rk).1.key).2)
+        (modMulWith negacyclic 1 4 1 (deriveSecretVectors O (O.xof r 32)).2 (deriveSecretVectors O (keygen O rk).1.key).1)).getD 0 ringZero).getD k 0) :
+    dec O (keygen O rk).1 (enc O (keygen O rk).2 r).2 = some (enc O (keygen O rk).2 r).1 :=
+  kem_correct_noise O rk r hlen hb hE
+example : ∃ O : Oracles, (O.xof [] 32).length = 32 ∧ ∀ x ∈ O.xof [] 32, x < 256 :=
+  ⟨{ xof := fun _ n => List.replicate n 0, hash := fun _ => [1] }, by simp, by intro x hx; simp at hx; omega⟩
 
 end TF.C18
